@@ -503,7 +503,10 @@ impl Retrier {
                 })?;
         }
 
-        while self.has_pending_appointments() {
+        // Once everything the retrier was handed has been dealt with, it picks up whatever else is still pending for the tower
+        // (e.g. data left behind by a retrier that failed), so the tower is not flagged as reachable while data is pending.
+        let mut picked_up = false;
+        while self.has_pending_appointments() || self.pick_up_pending(&mut picked_up) {
             let locators = self.pending_appointments.lock().unwrap().clone();
             for locator in locators.into_iter() {
                 // Only data that is still pending for this tower is sent. The tower may have been abandoned and registered
@@ -602,6 +605,28 @@ impl Retrier {
         }
 
         Ok(())
+    }
+
+    /// Feeds the retrier with the appointments that are still pending for the tower, at most once per run.
+    /// Returns whether there is anything to be sent.
+    fn pick_up_pending(&self, picked_up: &mut bool) -> bool {
+        if *picked_up {
+            return false;
+        }
+        *picked_up = true;
+
+        let remaining = self
+            .wt_client
+            .lock()
+            .unwrap()
+            .towers
+            .get(&self.tower_id)
+            .map(|tower| tower.pending_appointments.clone())
+            .unwrap_or_default();
+        let mut pending_appointments = self.pending_appointments.lock().unwrap();
+        pending_appointments.extend(remaining);
+
+        !pending_appointments.is_empty()
     }
 
     /// Removed our retrier identifier from the WTClient if the retrier has failed
